@@ -224,7 +224,8 @@ func (h *harness) scenario(s int, r *lib.RNG, sp scenarioParams) error {
 				return err
 			}
 			h.res.Hit("round:exhaustive")
-		} else if (op+1)%sp.every == 0 || op == sp.ops-1 {
+		} else if (op+1)%sp.every == 0 || op == sp.ops-1 || ((w.height() == 10 || w.height() == 11) && len(w.ops) > 0 && strings.HasPrefix(w.ops[len(w.ops)-1], "store")) {
+			// (heights 10 and 11: the boundary of the block-hash lag in v0.8's synthetic pending block)
 			if err := doRound(); err != nil {
 				return err
 			}
@@ -313,7 +314,7 @@ func (h *harness) queryRound(s, round int, w *world, r *lib.RNG, sp scenarioPara
 				if q.sub != "" {
 					h.res.Hit("arg:" + q.sub)
 				}
-				if exp.skip {
+				if q.id != nil && q.id.sem(ver) == "pending" && !isStateMethod(q.method) {
 					h.res.Hit("answer:v8-pending-synthetic-block")
 				} else {
 					h.res.Hit("answer:" + answerClass(line))
@@ -351,7 +352,7 @@ func (h *harness) queryRound(s, round int, w *world, r *lib.RNG, sp scenarioPara
 					continue
 				}
 				// (3) deep comparison with the bundle
-				if obj != nil && exp.resolved >= 0 {
+				if obj != nil && exp.resolved >= 0 && !(q.id != nil && q.id.sem(ver) == "pending" && !isStateMethod(q.method)) {
 					h.res.Hit("deep-compared:" + q.method)
 					if p := h.deep(w, q, ver, obj, exp.resolved); len(p) > 0 {
 						sort.Strings(p)
